@@ -740,8 +740,8 @@ func run(r *ev.Run) {
 		"terms are valid UTF-8 except for one partial-rune prefix filter; a term containing byte 0xff is outside the family (0xff is index.DocValueTermSeparator, see probe_0xff in extra)",
 		"facet Size ≥ 0; numeric bounds finite; date bounds inside the int64-nanosecond range",
 	}
-	r.MinDistinct = r.Scale(500, 15000)
-	nWorlds := r.Scale(24, 240)
+	r.MinDistinct = r.Scale(1200, 15000)
+	nWorlds := r.Scale(60, 240)
 	nCases := r.Scale(60, 200)
 	nLarge := r.Scale(2600, 5200)
 	dir := r.TempDir()
